@@ -124,6 +124,11 @@ def build_inputs(tier):
         cases.append(("source-form", s, "exec"))  # orders ast.unparse never writes (a starred argument after a keyword, ...)
     for s in xonshgen.XONSH_STMTS:
         cases.append(("xonsh-stmt", s, "exec"))
+    # path literals / search paths / env lookups in match patterns and subjects (witness of KF-C04-path-literal-in-pattern and neighbours)
+    for pat in ["p'a'", "{p'a': 1}", "p'a' | 'b'", "C(p'a')", "[p'a', *r]", "'a' | 'b'", "{'k': v}", "C(x='s')"]:
+        cases.append(("match-pattern", f"match x:\n  case {pat}: pass\n", "exec"))
+    for subj in ["p'a'", "`a*`", "$X", "$(ls)", "pf'{d}/x'"]:
+        cases.append(("match-subject", f"match {subj}:\n  case y: pass\n", "exec"))
     for x, _t, _k in corpus.xonsh_pairs():
         cases.append(("xonsh-pair", x + "\n", "exec"))
     for s in corpus.FSTRINGS:
@@ -174,6 +179,8 @@ def build_inputs(tier):
 def classify(src, o):
     import re
 
+    if "patterns may only match literals" in str(o.get("msg")) and re.search(r"(?i)\bcase\b[^\n]*\b[rf]?p[rf]?['\"]", src):
+        return "KF-C04-path-literal-in-pattern"
     if "starred" in str(o.get("msg")) and re.search(r"\)[$@!]|\$\w+@\(|\}@\(|\$\w+[$!]\(|[\]\)]@", src):
         return "KF-C04-glued-starred-piece"
     return None
